@@ -186,8 +186,15 @@ def lattice_cases(rng, max_len, palette, n_random, fault_kinds=False):
 SPAN_KIND = {'range': 0, 'list_str': 0, 'tuple_str': 0, 'list_dup': 0, 'np_int': 1, 'np_str': 1, 'np_dup': 1,
              'pd_int': 3, 'pd_str': 3, 'period_q': 2, 'pd_dup': 3, 'pd_dupnm': 3, 'list_dupnm': 0, 'np_dupnm': 1,
              # spans holding a FALSY label (the integer 0, the empty string) at position 1: a label is a label, never "not given"
-             'range0': 0, 'list_empty': 0, 'np_int0': 1, 'pd_int0': 3}
-SPAN_NODUP = ('range', 'list_str', 'tuple_str', 'np_int', 'np_str', 'pd_int', 'pd_str', 'period_q', 'range0', 'list_empty', 'np_int0', 'pd_int0')
+             'range0': 0, 'list_empty': 0, 'np_int0': 1, 'pd_int0': 3,
+             # repeated INNER labels, unambiguous end labels (n >= 4): adjacent repeat p0 p1 p1 p3 .., non-monotonic repeat p0 q p2 q p4 ..
+             'list_dupin': 0, 'np_dupin': 1, 'pd_dupin': 3, 'list_dupin_nm': 0, 'np_dupin_nm': 1, 'pd_dupin_nm': 3,
+             # 4 = quarterly PeriodIndex with the MODELLED lookup (SolveAllPeriod.locate_qindex: labels are quarter ordinals
+             # 4*year + quarter - 1, a year string is the key -(year)); period_q keeps the recorded table as a cross-check
+             'period_qm': 4, 'period_qm_late': 4}
+PERIOD_MODELLED = ('period_qm', 'period_qm_late')
+SPAN_NODUP = ('range', 'list_str', 'tuple_str', 'np_int', 'np_str', 'pd_int', 'pd_str', 'period_q', 'range0', 'list_empty', 'np_int0', 'pd_int0',
+              'period_qm', 'period_qm_late')
 INT_LABELS = ('range', 'np_int', 'pd_int', 'range0', 'np_int0', 'pd_int0')
 
 
@@ -196,6 +203,13 @@ def make_span(span_type, n):
     strs = ['p%d' % i for i in range(n)]
     dups = ['p%d' % (0 if i == 1 else i) for i in range(n)]          # label of period 1 repeats period 0
     dupnm = ['p%d' % (1 if i == 0 else 0 if i == 1 else 1 if i == 2 else i) for i in range(n)]   # p1 p0 p1 p3 ...: repeated, not monotonic
+    dupin = ['p%d' % (1 if i == 2 else i) for i in range(n)]                  # p0 p1 p1 p3 p4: periods 1 and 2 share a label
+    dupin_nm = ['q' if i in (1, 3) else 'p%d' % i for i in range(n)]            # p0 q p2 q p4: periods 1 and 3 share a label
+    if span_type in ('list_dupin', 'list_dupin_nm'):
+        return dupin if span_type == 'list_dupin' else dupin_nm
+    if span_type in ('np_dupin', 'np_dupin_nm'):
+        lab = dupin if span_type == 'np_dupin' else dupin_nm
+        return np.array(lab, dtype=str) if n else np.array([], dtype=str)
     if span_type == 'range':
         return range(2000, 2000 + n)
     if span_type == 'list_str':
@@ -231,8 +245,12 @@ def make_span(span_type, n):
         return pd.Index(dupnm, dtype=object)
     if span_type == 'pd_int0':
         return pd.Index(list(range(-1, n - 1)))
-    if span_type == 'period_q':
+    if span_type in ('pd_dupin', 'pd_dupin_nm'):
+        return pd.Index(dupin if span_type == 'pd_dupin' else dupin_nm, dtype=object)
+    if span_type in ('period_q', 'period_qm'):
         return pd.period_range('2000Q1', periods=n, freq='Q')
+    if span_type == 'period_qm_late':
+        return pd.period_range('2000Q3', periods=n, freq='Q')      # two quarters of 2000, the rest in 2001 (and 2002)
     raise AssertionError(span_type)
 
 
@@ -245,18 +263,21 @@ def label_of(span_type, span, n, spec):
         return span[spec[1]]
     if k == 'str':
         return str(span[spec[1]])
-    if k == 'partial' and span_type == 'period_q':
-        return '2000'                                  # a year against a quarterly index: get_loc returns a slice
+    if k == 'partial' and span_type in ('period_q',) + PERIOD_MODELLED:
+        return str(spec[1]) if len(spec) > 1 else '2000'   # a year against a quarterly index: get_loc returns a slice (KeyError if no match)
     if span_type in INT_LABELS:
         return 1999 if k == 'unknown' else -7
-    if span_type == 'period_q':
+    if span_type in ('period_q',) + PERIOD_MODELLED:
         import pandas as pd
         return pd.Period('1990Q1', freq='Q')
     return 'zz' if k == 'unknown' else 'yy'
 
 
-def span_ids(span, n):
-    """label id of every position = first position holding an equal label"""
+def span_ids(span, n, span_type=None):
+    """label id of every position = first position holding an equal label (quarterly PeriodIndex with the modelled lookup: the
+    quarter ordinal 4*year + quarter - 1)"""
+    if span_type in PERIOD_MODELLED:
+        return [4 * int(x.year) + int(x.quarter) - 1 for x in span]
     ids = []
     for i in range(n):
         j = 0
@@ -270,11 +291,32 @@ def spec_id(case, ids, spec):
     n = case['n']
     if spec is None:
         return None
+    if case['span_type'] in PERIOD_MODELLED:
+        if spec[0] in ('pos', 'str'):
+            return ids[spec[1]]                     # the Period object and its full string denote the same quarter
+        if spec[0] == 'partial':
+            return -int(spec[1] if len(spec) > 1 else 2000)
+        return 4 * 1990                             # 'unknown': 1990Q1
     if spec[0] == 'pos':
         return ids[spec[1]]
     if spec[0] == 'str':
         return n + 10 + spec[1]
     return n + 5 if spec[0] == 'unknown' else n + 6
+
+
+# flipped to True together with kind 4 of SolveAllF.f_locate (the modelled PeriodIndex lookup)
+MODELLED_PERIOD_KEYS = True
+
+
+def label_specs(span_type, n):
+    """the label specifications tried as start / end / solve_period argument on a span of this type"""
+    sp = [None] + [['pos', i] for i in range(n)] + [['unknown']]
+    if span_type == 'period_q':
+        sp += [['str', i] for i in range(n)] + [['partial']]
+    if span_type in PERIOD_MODELLED and MODELLED_PERIOD_KEYS:
+        # full strings, and year strings matching no / some / (for longer spans) other quarters of the index
+        sp += [['str', i] for i in range(n)] + [['partial', 1999], ['partial', 2000], ['partial', 2001]]
+    return sp
 
 
 def solve_kwargs(o):
@@ -298,7 +340,7 @@ def label_counts(case):
     """how many periods carry the label of each position (1 everywhere for spans without repeated labels)"""
     n = case['n']
     span = make_span(case['span_type'], n)
-    ids = span_ids(span, n)
+    ids = span_ids(span, n, case['span_type'])
     return [ids.count(ids[i]) for i in range(n)]
 
 
@@ -351,7 +393,7 @@ def run_solve_and_twin(case, fresh, nvars, names):
     n = case['n']
     span = make_span(case['span_type'], n)
     kw = solve_kwargs(case['opts'])
-    ids = span_ids(span, n)
+    ids = span_ids(span, n, case['span_type'])
 
     def lab_id(lab):
         for j in range(n):
